@@ -77,12 +77,23 @@ public:
             apply(*arg);
             if (is_a_Number(**real_)) {
                 iaddnum(outArg(coefr), rcp_static_cast<const Number>(*real_));
+            } else if (is_a<Add>(**real_)) {
+                // the real part of a term can itself be a sum
+                const Add &a = down_cast<const Add &>(**real_);
+                for (const auto &q : a.get_dict())
+                    Add::dict_add_term(dr, q.second, q.first);
+                iaddnum(outArg(coefr), a.get_coef());
             } else {
                 Add::as_coef_term(*real_, outArg(coef), outArg(t));
                 Add::dict_add_term(dr, coef, t);
             }
             if (is_a_Number(**imag_)) {
                 iaddnum(outArg(coefim), rcp_static_cast<const Number>(*imag_));
+            } else if (is_a<Add>(**imag_)) {
+                const Add &a = down_cast<const Add &>(**imag_);
+                for (const auto &q : a.get_dict())
+                    Add::dict_add_term(dim, q.second, q.first);
+                iaddnum(outArg(coefim), a.get_coef());
             } else {
                 Add::as_coef_term(*imag_, outArg(coef), outArg(t));
                 Add::dict_add_term(dim, coef, t);
